@@ -628,6 +628,11 @@ def gen_argcheck(ctx, drv):
                 for _ in range(14 if quick else 30):
                     sr = rng.choice([0, 1, 1, 2, P, P, P + 1]) if rng.random() < 0.3 else rng.randint(1, P)
                     scn = sr if rng.random() < 0.6 else rng.randint(1, P)
+                    if len(cand) < 2 and P >= 2 and ty not in ("T16", "U16"):
+                        # partially known (rectangular) S on a type that cannot use it: must be refused with EINVAL (D63)
+                        sr, scn = (P, 1) if sc.is_t(ty) else (1, P)
+                        if len(cand) == 1:
+                            sr, scn = scn, sr
                     br = rng.choice([r, r, max(sr, scn), sr, rng.randint(1, r)])
                     bc = rng.choice([c, c, max(sr, scn), scn, rng.randint(1, c)])
                     br, bc = max(1, br), max(1, bc)
@@ -644,22 +649,26 @@ def gen_argcheck(ctx, drv):
                     head = "add mm %d %d %d %d %s %d %s" % (br, bc, sr, scn, " ".join(map(str, cells)), len(ports), " ".join(map(str, ports)))
                     head = " ".join(head.split())
                     vals = " ".join("%s %s" % (float.hex(rng.uniform(-1, 1)), float.hex(rng.uniform(-1, 1))) for _ in range(br * bc))
-                    cand.append((head + " " + vals, head))
+                    cand.append((head + " " + vals, head, sr != scn and ty not in ("T16", "U16")))
                 # first pass through the model: drop the calls with undefined behaviour
                 lines = ["new %s %d %d 1" % (ty, r, c)] + ["par %d" % k for k in range(3, 8)]
                 if s.merr:
                     lines.append("merr on")
-                lines += [m for _, m in cand] + ["end"]
+                lines += [m for _, m, _ in cand] + ["end"]
                 rc, mo, me = vplib.sh([drv], input="\n".join(lines) + "\n", timeout=120)
                 mo = mo.split("\n")
                 base = len(lines) - len(cand) - 1
                 if s.merr:
                     s.ops.append(("merr", "1e-6"))
                 kept = 0
-                for i, (cl, ml) in enumerate(cand):
+                for i, (cl, ml, rect) in enumerate(cand):
                     if rc == 0 and "OUT-OF-MODEL" not in mo[base + i]:
                         s.ops.append(("rawadd", cl, ml))
                         kept += 1
+                        if rect:
+                            ctx.extra["argcheck_rectangular_non16"] = ctx.extra.get("argcheck_rectangular_non16", 0) + 1
+                            if "EINVAL" not in mo[base + i]:
+                                ctx.extra["argcheck_rectangular_not_refused_by_model"] = mo[base + i][:80]
                         if kept % 4 == 0:
                             s.ops.append(("solve",))
                 s.ops.append(("solve",))
@@ -947,6 +956,11 @@ def run(ctx):
         ctx.violation(sig, "%s %dx%d, operation %d (%s): %s" % (s.ty, s.r, s.c, p["index"], p["op"], p["what"]),
                       {"script": script[:p["index"] + 2], "c_line": p["c"], "model_line": p["model"], "problem": p})
     ctx.obligation("tie:model-vs-library + required outcomes", nprob == 0, "%d problems" % nprob)
+    if drv is not None:
+        ctx.obligation("tie:rectangular S on 8/10/14-term types is refused (EINVAL) by model and library",
+                       ctx.extra.get("argcheck_rectangular_non16", 0) >= 10 and
+                       "argcheck_rectangular_not_refused_by_model" not in ctx.extra,
+                       "%d such calls compared" % ctx.extra.get("argcheck_rectangular_non16", 0))
     ctx.obligation("tie:coverage (required EDOM and required success both exercised)",
                    stats["edom_required"] > 50 and stats["solve_required"] > 50 and stats["dut_checked"] > 10,
                    "edom %d, success %d, dut %d" % (stats["edom_required"], stats["solve_required"], stats["dut_checked"]))
